@@ -7,6 +7,7 @@ import Req.Lemmas.C09PoolExcl
 import Req.Lemmas.C09PoolLru
 import Req.Lemmas.C09PoolCount
 import Req.Lemmas.C09PoolOnce
+import Req.Lemmas.C09PoolLeak
 import Req.Lemmas.C09Pairing
 import Req.Lemmas.C09Monitor
 /-!
@@ -52,8 +53,11 @@ Monitor part (`Req/Pool/Monitor.lean`, the judge of the concurrent lanes)
 * `monitor_accepts_no_overlap` : every HTTP/1.1 request event it lets pass found no other
                           request outstanding on that connection.
 
-NOT proved (see notes/C09.md): liveness (every live connection is in at least one place / no
-leak), HTTP/2 (`pconn.alt`) entries of the idle list, `IdleConnTimeout` staleness (`tooOld`) —
+* `pool_no_leak`, `pool_exact` : every connection ever dialled is in EXACTLY one place — idle list
+                          of its key (once) / owned by exactly one request / in transit / nowhere and
+                          then closed; a live connection is never nowhere.
+NOT proved (see notes/C09.md): liveness in the temporal sense (a pool routine that holds a
+connection in transit does finish), HTTP/2 (`pconn.alt`) entries of the idle list, `IdleConnTimeout` staleness (`tooOld`) —
 the latter two are outside the model; the Go memory model below lock granularity.
 -/
 namespace Req.Props.C09
@@ -140,7 +144,7 @@ example : verdict [⟨[1], true, false, [5]⟩, ⟨[1], true, false, [5]⟩, ⟨
 /-! ## Pool -/
 section Pool
 open Req.Pool.H1Pool Req.Lemmas.C09Pool Req.Lemmas.C09PoolExcl Req.Lemmas.C09PoolLru
-open Req.Lemmas.C09PoolCount Req.Lemmas.C09PoolOnce
+open Req.Lemmas.C09PoolCount Req.Lemmas.C09PoolOnce Req.Lemmas.C09PoolLeak
 
 /-- The pool invariant, spelled out. `(s.wst w).holds c` = request `w` owns connection `c`
 (delivered to its `wantConn` or already received by `getConn`). -/
@@ -194,6 +198,47 @@ theorem pool_inv (cfg : Cfg) (ops : List Op) : Inv cfg (run cfg {} ops) := by
     no_underflow := fun hpos => (Excl_Acct_run cfg hpos {} ops Excl_init Acct_init).noUnderflow
   }
 
+/-- **pool_no_leak** — no connection is lost track of: in every reachable state every connection
+that was dialled and is not closed is listed idle, owned by a request (delivered to its `wantConn`
+or in use), or in the hands of a pool routine between two critical sections (`transit`: the
+routine then pools it, hands it to a waiter, or closes it). -/
+theorem pool_no_leak (cfg : Cfg) (ops : List Op) (c : Conn)
+    (hcreated : (run cfg {} ops).ckey c ≠ none) (hopen : (run cfg {} ops).closed c = false) :
+    (∃ k, c ∈ (run cfg {} ops).idle k) ∨ c ∈ (run cfg {} ops).transit ∨
+      ∃ w, ((run cfg {} ops).wst w).holds c = true :=
+  NoLeak_run cfg {} ops Excl_init (LruAll_init cfg) NoLeak_init c ⟨hcreated, hopen⟩
+
+/-- **pool_exact** — "in exactly one place": every connection ever dialled is, in every reachable
+state, in EXACTLY one of {the idle list of its own key (once), owned by exactly one request, in
+transit, nowhere — and then it is closed}. -/
+theorem pool_exact (cfg : Cfg) (ops : List Op) (c : Conn) (hcreated : (run cfg {} ops).ckey c ≠ none) :
+    let s := run cfg {} ops
+    -- at least one place, unless closed
+    ((∃ k, c ∈ s.idle k) ∨ c ∈ s.transit ∨ (∃ w, (s.wst w).holds c = true) ∨ s.closed c = true) ∧
+    -- idle excludes the others; the list is the one of the connection's key and has it once
+    (∀ k, c ∈ s.idle k → c ∉ s.transit ∧ (∀ w, (s.wst w).holds c = false) ∧
+        s.ckey c = some k ∧ (s.idle k).count c = 1) ∧
+    -- transit excludes ownership and appears once
+    (c ∈ s.transit → (∀ w, (s.wst w).holds c = false) ∧ s.transit.count c = 1) ∧
+    -- one owner at most
+    (∀ w₁ w₂, (s.wst w₁).holds c = true → (s.wst w₂).holds c = true → w₁ = w₂) := by
+  have he := Excl_run cfg {} ops Excl_init
+  refine ⟨?_, ?_, ?_, ?_⟩
+  · cases hcl : (run cfg {} ops).closed c with
+    | true => exact Or.inr (Or.inr (Or.inr rfl))
+    | false =>
+      rcases pool_no_leak cfg ops c hcreated hcl with h | h | h
+      · exact Or.inl h
+      · exact Or.inr (Or.inl h)
+      · exact Or.inr (Or.inr (Or.inl h))
+  · intro k hk
+    exact ⟨he.idleNotTransit k c hk, fun w => he.idleNotHeld k c w hk, he.idleKey k c hk,
+      by rw [(he.idleNodup k).count, if_pos hk]⟩
+  · intro ht
+    exact ⟨fun w => he.transitNotHeld c w ht, by rw [he.transitNodup.count, if_pos ht]⟩
+  · intro w₁ w₂ h1 h2
+    exact he.heldUnique w₁ w₂ c h1 h2
+
 /-- **deliver_once** — a want is delivered at most once: after any further interleaving a want
 that owned connection `c` owns `c` or nothing, and a done want never waits again. -/
 theorem deliver_once (cfg : Cfg) (ops more : List Op) (w : Want) (c d : Conn)
@@ -225,6 +270,17 @@ example : (run exCfg {} (exOps.take 9)).wst 1 = .inUse 7 := by decide
 example : (run exCfg {} (exOps.take 12)).dialWait 0 = [2] := by decide
 example : (run exCfg {} exOps).wst 2 = .gotConn 7 ∧ (run exCfg {} exOps).idle 0 = [] ∧
     (run exCfg {} exOps).cph 0 = 1 := by decide
+
+/-- Non-vacuity: connection 7 of `exOps` walks through the places — delivered, in use, idle,
+in use again, handed to the waiter — and a connection whose want was cancelled while the dial was
+running ends up in transit and, once the routine has let go of it, closed (MaxIdleConnsPerHost < 0:
+keep-alives off). -/
+example : ((run exCfg {} (exOps.take 4)).wst 0).holds 7 = true ∧ (run exCfg {} (exOps.take 6)).idle 0 = [7] ∧
+    ((run exCfg {} (exOps.take 9)).wst 1).holds 7 = true ∧ ((run exCfg {} exOps).wst 2).holds 7 = true := by decide
+example :
+    let s1 := run ⟨0, -1, 0, false⟩ {} [.newWant 0 0, .queueIdle 0, .queueDial 0, .cancel 0, .dialOk 0 5]
+    let s2 := run ⟨0, -1, 0, false⟩ s1 [.putT 5, .closeT 5]
+    s1.transit = [5] ∧ s1.closed 5 = false ∧ s2.transit = [] ∧ s2.closed 5 = true ∧ s2.idle 0 = [] := by decide
 
 end Pool
 
